@@ -804,10 +804,11 @@ class C16(PropertyCheck):
     def theorems_for(self, case):
         kind = case["kind"]
         return {
-            "fs_history": ["C16.output_error_iff", "C16.output_success_state", "C16.bare_name_cwd"],
+            "fs_history": ["C16.output_overwrite_semantics", "C16.output_error_iff", "C16.bare_name_cwd"],
             "mask2d": ["C16.mask2d_hdu_roundtrip", "C16.mask2d_file_roundtrip"],
             "array1d": ["C16.array1d_roundtrip"], "mask1d": ["C16.mask1d_roundtrip"],
-        }.get(kind, ["C16.array2d_hdu_roundtrip", "C16.array2d_file_roundtrip", "C16.scales_header_roundtrip"])
+        }.get(kind, ["C16.array2d_hdu_roundtrip", "C16.array2d_file_roundtrip", "C16.scales_header_roundtrip",
+                      "C16.flip_undone", "C16.output_is_flipped", "C16.masked_pixels_read_zero"])
 
     def sample_view(self, case):
         return {k: v for k, v in case.items() if not k.startswith("_")}
